@@ -198,6 +198,54 @@ fn check_sequence(toks: &[&'static str], full: &[String], core: &[String], joint
     }
 }
 
+/// Comment bodies over every character: for a handful of token sequences and every gap, line and block
+/// comments whose body contains each character in 0..=0x3000 (and a few beyond) — alone, between letters,
+/// directly before a `/`, directly before a `*` — must separate exactly like a space. (A line feed ends a
+/// line comment; the reference lexer decides which renderings are admissible.)
+fn comment_body_characters() -> Stats {
+    let seqs: Vec<Vec<&'static str>> = vec![vec!["1", "+", "2"], vec!["a", "=", "b2"], vec!["(", "a", ")"], vec!["\"/*\"", "+", "\"//\""], vec!["2", "*", "a"], vec!["a", ";", "1"]];
+    let mut cps: Vec<u32> = (0..=0x3000).collect();
+    cps.extend([0xfeff, 0xfffd, 0x1f600, 0x10ffff]);
+    let chars: Vec<char> = cps.into_iter().filter_map(char::from_u32).collect();
+    let chunks: Vec<Vec<char>> = chars.chunks(128).map(|c| c.to_vec()).collect();
+    par_items(&chunks, |_, chunk| {
+        let mut st = Stats::new();
+        for toks in &seqs {
+            let base_src = toks.join(" ");
+            let intended = match lex(&base_src) {
+                Ok(t) => t,
+                Err(_) => continue,
+            };
+            let base_res = match parse(&base_src) {
+                Ok(r) => r,
+                Err(_) => continue,
+            };
+            let b = Base { toks: toks.clone(), intended, base_src, base_res };
+            let gaps = toks.len() + 1;
+            for c in chunk {
+                let menu = [
+                    format!("//{c}\n"),
+                    format!("//a{c}b\n"),
+                    format!("// x{c}+ 1\n"),
+                    format!("/*{c}*/"),
+                    format!("/*a{c}b*/"),
+                    format!("/* x{c}/ y */"),
+                    format!("/* x{c}* y */"),
+                    format!("/*{c}{c}*/"),
+                ];
+                for m in &menu {
+                    for g in 0..gaps {
+                        let seps: Vec<&str> = (0..gaps).map(|k| if k == g { m.as_str() } else if k == 0 || k == gaps - 1 { "" } else { " " }).collect();
+                        compare(&b, &seps, &mut st);
+                        st.count("comment-body-character-renderings");
+                    }
+                }
+            }
+        }
+        st
+    })
+}
+
 pub fn run(cfg: &Cfg) -> Report {
     let alpha = token_alphabet();
     let full = full_menu();
@@ -289,6 +337,7 @@ pub fn run(cfg: &Cfg) -> Report {
         st
     });
     stats.merge(body_stats);
+    stats.merge(comment_body_characters());
     // scaling families: long token sequences, every gap taking its own separator from the full menu
     {
         let cycle: Vec<&'static str> = vec![
@@ -358,7 +407,7 @@ pub fn run(cfg: &Cfg) -> Report {
     Report {
         property: ID,
         level: "exploration",
-        rule: format!("every token sequence of length <= {max_len} over a {a}-token alphabet (words, strings containing comment markers, every operator and punctuation token), well-formed or not; per sequence: each gap (incl. before the first and after the last token) takes each of {} separators (the 25 White_Space code points, block and line comments, mixtures, the empty separator) while the other gaps cycle through a core menu, plus all gaps jointly over the {core_n}-entry core menu for sequences of length <= {joint_upto}; a rendering is compared only if the reference lexer still reads the intended token sequence (so fusing renderings are skipped); plus 4 unterminated-comment tails per sequence; plus every comment body up to 4 (quick) / 6 (thorough) characters over `* / a space newline \" = é 😀` as a block and as a line comment at every gap of 5 fixed sequences; plus scaling families: token sequences of n tokens (n in 1..20 and up to 129 / 1..40 and up to 400) in which every gap takes its own separator from the full menu, in as many rotations as the menu has entries. Non-trivial = sequences of >= 2 tokens; distinct by token sequence", full.len()),
+        rule: format!("every token sequence of length <= {max_len} over a {a}-token alphabet (words, strings containing comment markers, every operator and punctuation token), well-formed or not; per sequence: each gap (incl. before the first and after the last token) takes each of {} separators (the 25 White_Space code points, block and line comments, mixtures, the empty separator) while the other gaps cycle through a core menu, plus all gaps jointly over the {core_n}-entry core menu for sequences of length <= {joint_upto}; a rendering is compared only if the reference lexer still reads the intended token sequence (so fusing renderings are skipped); plus 4 unterminated-comment tails per sequence; plus every comment body up to 4 (quick) / 6 (thorough) characters over `* / a space newline \" = é 😀` as a block and as a line comment at every gap of 5 fixed sequences; plus scaling families: token sequences of n tokens (n in 1..20 and up to 129 / 1..40 and up to 400) in which every gap takes its own separator from the full menu, in as many rotations as the menu has entries. Non-trivial = sequences of >= 2 tokens; distinct by token sequence Plus comment bodies over every character: for six token sequences and every gap, line and block comments whose body contains each character in 0..=0x3000 alone, between letters, directly before `/` and directly before `*`.", full.len()),
         nontrivial_set: "nontrivial",
         exhaustive: true,
         bound_completed: format!("token sequences of length {max_len}"),
